@@ -30,6 +30,8 @@ enum Op {
     Fsync,
     /// cancel the operation pushed just before this one
     CancelPrev,
+    /// a read carrying IO_LINK, which the simulation rejects at once with -EINVAL
+    BadFlag,
 }
 
 #[derive(Clone, Copy, Debug, PartialEq, Eq)]
@@ -42,6 +44,9 @@ enum Drain {
     Late,
     /// loop { sync; take everything; sleep one tick }
     Poll,
+    /// a second task is parked in readable() on the idle ring before anything is pushed;
+    /// it takes everything whenever it is woken
+    ParkedReaper,
 }
 
 struct RingFd(RawFd);
@@ -92,6 +97,7 @@ fn batch_menu() -> Vec<Vec<Op>> {
         vec![Op::Read(0, 4), Op::CancelPrev],
         vec![Op::Write(0, *b"AB"), Op::Write(2, *b"CD"), Op::Read(4, 2)],
         vec![Op::Fsync],
+        vec![Op::BadFlag],
     ]
 }
 
@@ -162,8 +168,8 @@ async fn program(st: S, script: Vec<(Vec<Op>, Drain)>, depth: u32, offset: Durat
     }
     let file = fs::OpenOptions::new().read(true).write(true).open("/f")?;
     let fd = types::Fd(file.as_raw_fd());
-    let mut ring = IoUring::new(depth)?;
-    let afd = AsyncFd::new(RingFd(ring.as_raw_fd()))?;
+    let ring = Rc::new(RefCell::new(IoUring::new(depth)?));
+    let afd = Rc::new(AsyncFd::new(RingFd(ring.borrow().as_raw_fd()))?);
     let mut next_ud = 100u64;
     for (b, (ops, drain)) in script.into_iter().enumerate() {
         if !offset.is_zero() {
@@ -172,6 +178,46 @@ async fn program(st: S, script: Vec<(Vec<Op>, Drain)>, depth: u32, offset: Durat
         let mut outstanding: Vec<u64> = vec![];
         let mut queued = 0u32;
         let mut prev_ud = None;
+        // the parked reaper starts before anything is pushed
+        let reaper = if drain == Drain::ParkedReaper {
+            let (ring, afd, st, n) = (ring.clone(), afd.clone(), st.clone(), ops.len());
+            let h = tokio::task::spawn_local(async move {
+                let mut got = 0;
+                while got < n {
+                    match tokio::time::timeout(patience, afd.readable()).await {
+                        Ok(Ok(_)) => {
+                            let mut r = ring.borrow_mut();
+                            let mut cq = r.completion();
+                            cq.sync();
+                            let mut k = 0;
+                            for e in &mut cq {
+                                k += 1;
+                                let step = st.borrow().step_now;
+                                st.borrow_mut().cqes.push((e.user_data(), e.result(), step));
+                            }
+                            if k == 0 {
+                                st.borrow_mut().errors.push(format!("batch {b}: readable() resolved for the parked reaper but the completion queue is empty after sync"));
+                                break;
+                            }
+                            got += k;
+                        }
+                        Ok(Err(e)) => {
+                            st.borrow_mut().errors.push(format!("batch {b}: readable() failed for the parked reaper: {e}"));
+                            break;
+                        }
+                        Err(_) => {
+                            st.borrow_mut().errors.push(format!("batch {b}: the reaper parked in readable() was not woken within {patience:?} although {} completions are due", n - got));
+                            break;
+                        }
+                    }
+                }
+            });
+            // let it park
+            tokio::task::yield_now().await;
+            Some(h)
+        } else {
+            None
+        };
         for op in ops {
             next_ud += 1;
             let ud = next_ud;
@@ -189,21 +235,23 @@ async fn program(st: S, script: Vec<(Vec<Op>, Drain)>, depth: u32, offset: Durat
                 Op::Read(off, len) => opcode::Read::new(fd, ptr, len).offset(off).build(),
                 Op::Fsync => opcode::Fsync::new(fd).build(),
                 Op::CancelPrev => opcode::AsyncCancel::new(prev_ud.unwrap_or(1)).build(),
+                Op::BadFlag => opcode::Read::new(fd, ptr, 2).offset(0).build().flags(turmoil::io_uring::squeue::Flags::IO_LINK),
             }
             .user_data(ud);
-            let mut pushed = unsafe { ring.submission().push(&entry).is_ok() };
+            let mut pushed = unsafe { ring.borrow_mut().submission().push(&entry).is_ok() };
             let want = queued < depth;
             if pushed != want {
                 st.borrow_mut().errors.push(format!("batch {b}: push with {queued} queued entries on a ring of depth {depth} returned ok={pushed}"));
             }
             if !pushed {
                 // full queue: submit what is there, then the push must succeed
-                match ring.submit() {
+                let sub = ring.borrow().submit();
+                match sub {
                     Ok(n) if n as u32 == queued => {}
                     other => st.borrow_mut().errors.push(format!("batch {b}: submit of {queued} queued entries returned {other:?}")),
                 }
                 queued = 0;
-                pushed = unsafe { ring.submission().push(&entry).is_ok() };
+                pushed = unsafe { ring.borrow_mut().submission().push(&entry).is_ok() };
                 if !pushed {
                     st.borrow_mut().errors.push(format!("batch {b}: push into an empty queue failed"));
                     continue;
@@ -215,12 +263,14 @@ async fn program(st: S, script: Vec<(Vec<Op>, Drain)>, depth: u32, offset: Durat
             outstanding.push(ud);
             prev_ud = Some(ud);
         }
-        match ring.submit() {
+        let sub = ring.borrow().submit();
+        match sub {
             Ok(n) if n as u32 == queued => {}
             other => st.borrow_mut().errors.push(format!("batch {b}: submit of {queued} queued entries returned {other:?}")),
         }
         // ---- drain
-        let take = |ring: &mut IoUring, limit: usize, st: &S, outstanding: &mut Vec<u64>| -> usize {
+        let take = |ring: &Rc<RefCell<IoUring>>, limit: usize, st: &S, outstanding: &mut Vec<u64>| -> usize {
+            let mut ring = ring.borrow_mut();
             let mut cq = ring.completion();
             cq.sync();
             let mut n = 0;
@@ -241,7 +291,7 @@ async fn program(st: S, script: Vec<(Vec<Op>, Drain)>, depth: u32, offset: Durat
                 while !outstanding.is_empty() {
                     match tokio::time::timeout(patience, afd.readable()).await {
                         Ok(Ok(_)) => {
-                            if take(&mut ring, limit, &st, &mut outstanding) == 0 {
+                            if take(&ring, limit, &st, &mut outstanding) == 0 {
                                 st.borrow_mut().errors.push(format!("batch {b}: readable() resolved but the completion queue is empty after sync"));
                                 break;
                             }
@@ -259,15 +309,20 @@ async fn program(st: S, script: Vec<(Vec<Op>, Drain)>, depth: u32, offset: Durat
             }
             Drain::Late => {
                 tokio::time::sleep(lat * 3 + tick * 2).await;
-                take(&mut ring, usize::MAX, &st, &mut outstanding);
+                take(&ring, usize::MAX, &st, &mut outstanding);
                 if !outstanding.is_empty() {
                     st.borrow_mut().errors.push(format!("batch {b}: {} operations have no completion three latencies after submission", outstanding.len()));
+                }
+            }
+            Drain::ParkedReaper => {
+                if let Some(h) = reaper {
+                    let _ = h.await;
                 }
             }
             Drain::Poll => {
                 let mut rounds = 0;
                 while !outstanding.is_empty() {
-                    take(&mut ring, usize::MAX, &st, &mut outstanding);
+                    take(&ring, usize::MAX, &st, &mut outstanding);
                     rounds += 1;
                     if rounds > 60 {
                         st.borrow_mut().errors.push(format!("batch {b}: {} operations have no completion after 60 polls one tick apart", outstanding.len()));
@@ -287,6 +342,7 @@ async fn program(st: S, script: Vec<(Vec<Op>, Drain)>, depth: u32, offset: Durat
     // nothing further may show up
     tokio::time::sleep(lat * 2 + tick).await;
     {
+        let mut ring = ring.borrow_mut();
         let mut cq = ring.completion();
         cq.sync();
         if let Some(e) = cq.next() {
@@ -312,7 +368,7 @@ pub fn scenario(ch: &mut Chooser, thorough: bool) -> Exec {
     let lat_us = *ch.of("io_latency_us", if thorough { &[500u64, 1000, 2500, 4000][..] } else { &[500u64, 2500][..] });
     let depth = *ch.of("queue_depth", &[1u32, 2, 4]);
     let menu = batch_menu();
-    let drains = [Drain::ReadableAll, Drain::ReadableOne, Drain::Late, Drain::Poll];
+    let drains = [Drain::ReadableAll, Drain::ReadableOne, Drain::Late, Drain::Poll, Drain::ParkedReaper];
     let nb = if thorough { 3 } else { 2 };
     let script: Vec<(Vec<Op>, Drain)> = (0..nb).map(|_| (menu[ch.choose("batch", menu.len())].clone(), *ch.of("drain", &drains))).collect();
     let offset_us = if tick_ms >= 2 && ch.flag("submit_half_a_tick_into_the_step") { tick_ms * 500 } else { 0 };
@@ -425,7 +481,7 @@ pub fn scenario(ch: &mut Chooser, thorough: bool) -> Exec {
             snap_i += 1;
         }
         let is_cancelled = cancelled.contains(ud);
-        let immediate = is_cancelled || s.op == Op::CancelPrev;
+        let immediate = is_cancelled || s.op == Op::CancelPrev || s.op == Op::BadFlag;
         if !immediate && *step < s.submit_step + lat_steps {
             fail(
                 "too-early",
@@ -449,6 +505,7 @@ pub fn scenario(ch: &mut Chooser, thorough: bool) -> Exec {
                     (e - a) as i32
                 }
                 Op::Fsync | Op::CancelPrev => 0,
+                Op::BadFlag => -22,
             }
         };
         if *res != want {
@@ -462,9 +519,9 @@ pub fn scenario(ch: &mut Chooser, thorough: bool) -> Exec {
                     fail("read-data", format!("read user_data={ud} off={off} len={len}: buffer {:?}, the reference file holds {:?}", buf, &content[a..e]));
                 }
             }
-            Op::Read(..) => {
+            Op::Read(..) | Op::BadFlag => {
                 if buf.iter().any(|x| *x != SENTINEL) {
-                    fail("buffer-touched", format!("read user_data={ud} completed with -ECANCELED but its buffer was modified: {:?}", buf));
+                    fail("buffer-touched", format!("read user_data={ud} completed with an error but its buffer was modified: {:?}", buf));
                 }
             }
             Op::Write(..) if !is_cancelled => apply(&mut content, s.op),
@@ -494,7 +551,7 @@ pub fn scenario(ch: &mut Chooser, thorough: bool) -> Exec {
         }
         if let Some(c) = g.cqes.iter().find(|c| c.0 == s.ud) {
             let drain = script[s.batch].1;
-            if matches!(drain, Drain::ReadableAll | Drain::Poll) && c.2 > s.submit_step + lat_steps + 3 {
+            if matches!(drain, Drain::ReadableAll | Drain::Poll | Drain::ParkedReaper) && c.2 > s.submit_step + lat_steps + 3 {
                 fail(
                     "late",
                     format!("operation user_data={} ({:?}) submitted in step {} was only delivered in step {} by a {:?} loop (latency {lat_us}us = {lat_steps} steps)", s.ud, s.op, s.submit_step, c.2, drain),
